@@ -6,11 +6,14 @@ CONSTANTS UnionKinds,   \* member kinds used in unions
           Arity,        \* 2 or 3
           EmitJson
 VARIABLES d, done
-Leafs == [kind : LeafKinds \ {"none"}, req : BOOLEAN, nul : BOOLEAN, ms : {<<>>}]
+Leafs == [kind : LeafKinds \ {"none"}, req : BOOLEAN, nul : BOOLEAN, ms : {<<>>}, nest : {0}]
 Pairs == {q \in [1..2 -> UnionKinds] : q[1] # q[2]}
 Triples == IF Arity >= 3 THEN {q \in [1..3 -> UnionKinds] : q[1] # q[2] /\ q[1] # q[3] /\ q[2] # q[3]} ELSE {}
-Unions == [kind : {"union"}, req : BOOLEAN, nul : BOOLEAN, ms : Pairs \cup Triples]
-Init == d \in Leafs \cup Unions /\ done = FALSE
+Unions == [kind : {"union"}, req : BOOLEAN, nul : BOOLEAN, ms : Pairs \cup Triples, nest : {0}]
+\* nested unions: <<a, b>> wrapped in an inner oneOf, followed by c (overlapping object members included)
+NestedMs == {q \in [1..3 -> {"modelM", "modelN", "modelS", "none", "str", "date"}] : q[1] # q[2] /\ q[1] # q[3] /\ q[2] # q[3]}
+Nested == [kind : {"union"}, req : {TRUE, FALSE}, nul : {FALSE}, ms : NestedMs, nest : {2}]
+Init == d \in Leafs \cup Unions \cup Nested /\ done = FALSE
 Next == ~done /\ done' = TRUE /\ UNCHANGED d
 Spec == Init /\ [][Next]_<<d, done>>
 WireSeq == <<"absent", "null", "t", "f", "i1", "i2", "i7", "f15", "f10", "s", "ds", "dts", "dt0", "us", "m1", "m2",
